@@ -274,8 +274,12 @@ NetCountsInactive == Done =>
         Net(rsys[i])[s] = (Co(rsys[i].prod, s) - Co(rsys[i].reac, s))
                           + (Co(rsys[i].iprod, s) - Co(rsys[i].ireac, s))
 
-\* the chosen point separates the monomials of every rate polynomial (prime point)
-PointSeparates == Done =>
+\* the chosen point separates the monomials of every rate polynomial (prime point); the zero
+\* value class (a concentration, constant or feed value that is exactly 0) is exempt by nature
+NoZeroValue == /\ \A s \in Species : c[s][1] # 0
+               /\ \A i \in DOMAIN rsys : rsys[i].kv[1] # 0
+               /\ (feed.on => (feed.F[1] # 0 /\ \A s \in Species : feed.cf[s][1] # 0))
+PointSeparates == (Done /\ NoZeroValue) =>
     \A s \in Species : \A m1, m2 \in RatePoly(rsys, s) :
         m1 # m2 => QAbs(MonoValue(m1, VEnv(c, feed), KEnv(rsys))) # QAbs(MonoValue(m2, VEnv(c, feed), KEnv(rsys)))
 
@@ -313,6 +317,7 @@ Class == "n" \o ToString(Len(rsys))
          \o (IF HasShared THEN "-sh" ELSE "") \o (IF feed.on THEN "-cstr" ELSE "")
          \o (IF feed.usermap THEN "-map" ELSE "") \o (IF hist # <<>> THEN "-h" ELSE "")
          \o (IF \E s \in DOMAIN sphase : sphase[s] > 0 THEN "-ph" ELSE "")
+         \o (IF Done /\ ~NoZeroValue THEN "-zero" ELSE "")
          \o (IF Untouched(rsys) \cap { subst[i] : i \in DOMAIN subst } # {} THEN "-u" ELSE "")
 
 FeedOut == IF feed.on THEN [on |-> TRUE, F |-> feed.F, cf |-> BySubst(feed.cf),
